@@ -445,6 +445,22 @@ func Observe(s *Stores, t *Tables, kh int, hashes []*types.Hash, txs []*types.Ha
 			return rOK([]interface{}{c, tag})
 		})
 		ho.RC = guard(func() R {
+			if s.BF == nil {
+				// no blockfile handle (executor-level runs): the receipts of the block's transactions
+				b, err := cl.GetBlock(h, true)
+				if err != nil {
+					return rErr(err)
+				}
+				var hs []*types.Hash
+				for _, tx := range b.Transactions.Transactions {
+					r, err := cl.GetReceipt(tx.GetHash())
+					if err != nil {
+						return rErr(err)
+					}
+					hs = append(hs, r.Hash())
+				}
+				return rOK(t.Root(hs))
+			}
 			data, err := s.BF.Get(blockfile.BlockFileReceiptTable, h)
 			if err != nil {
 				return rErr(err)
